@@ -40,8 +40,10 @@ POOL = [
     {"kind": "nets", "list": ["net1", "net2"]}, {"kind": "only_nets", "val": "cluster1"},
     {"kind": "kv", "key": "aaa", "val": "bbb"}, {"kind": "kv", "key": "ccc", "val": "d e"}, {"kind": "kv", "key": "aaa", "val": "zzz"},
     {"kind": "malformed"},
+    # known and unknown vm names mixed in one selection
+    {"kind": "vms", "list": ["vm1", "vm9"]}, {"kind": "vms", "list": ["vm9", "vm2"]},
 ]
-QUICK_POOL = [0, 1, 2, 3, 4, 8, 9, 11, 12, 14, 15, 17, 18, 19, 20, 21, 23]
+QUICK_POOL = [0, 1, 2, 3, 4, 8, 9, 11, 12, 14, 15, 17, 18, 19, 20, 21, 23, 24]
 
 
 def arg_string(a):
